@@ -41,6 +41,7 @@ func rulesC03(c *Ctx) {
 	ruleStateWriters(c, writersRIB)
 	// the entry whose references are released is the entry that is removed: lookups and mutations use the key as handed in (shared with C01)
 	ruleTableKeyIdentity(c)
+	ruleCheckWiring(c) // every holder, also one created later, consults the deletability gate: the options passed at each creation site agree (shared with C02)
 }
 
 // R3.0
@@ -91,7 +92,7 @@ func ruleMutationSites(c *Ctx) {
 			// install helper: callers ⊆ AddXXX; deletes inside it are the replace step
 			ok := len(callers) > 0
 			for _, cl := range callers {
-				if _, isAdd := addOf[cl]; !isAdd {
+				if !onBehalfOf(c.P.callGraph(), cl, func(g *types.Func) bool { _, isAdd := addOf[g]; return isAdd }) {
 					ok = false
 				}
 			}
@@ -102,11 +103,13 @@ func ruleMutationSites(c *Ctx) {
 		default:
 			// removal: either the locked helper of a DeleteXXX of the same table, or a lockless flush helper
 			okDel, okFlush := len(callers) > 0, len(callers) > 0
+			cgM := c.P.callGraph()
 			for _, cl := range callers {
-				if t, isDel := delOf[cl]; !isDel || t != tm.Table {
+				// (a helper new to the rules that only the audited function calls acts on its behalf)
+				if !onBehalfOf(cgM, cl, func(g *types.Func) bool { t, isDel := delOf[g]; return isDel && t == tm.Table }) {
 					okDel = false
 				}
-				if flush == nil || cl != flush.Obj {
+				if flush == nil || !onBehalfOf(cgM, cl, func(g *types.Func) bool { return g == flush.Obj }) {
 					okFlush = false
 				}
 			}
@@ -1318,7 +1321,9 @@ func ruleCounterCallers(c *Ctx) {
 				if depth >= 3 {
 					return false
 				}
-				if _, decidable := refHelperSummary(f); !decidable {
+				// a helper new to the rules is spliced into its callers (or judged in the second view), so its
+				// effect is accounted where it is called; an older helper must have a decidable summary
+				if _, decidable := refHelperSummary(f); !decidable && !isNewFunc(f) {
 					return false
 				}
 				cs := cg.callersOf(f)
@@ -1407,7 +1412,7 @@ func ruleCounterCallers(c *Ctx) {
 		for _, st := range c.P.fieldStores[fv] {
 			n++
 			d := declaredOf(st.Parent())
-			if d == nil || d.Name() != "NewRIBHolder" {
+			if d == nil || !onBehalfOf(cgW, d, func(g *types.Func) bool { return g.Name() == "NewRIBHolder" && !isNewFunc(g) }) {
 				nm := "?"
 				if d != nil {
 					nm = displayName(d)
